@@ -1,7 +1,7 @@
 /- `print_model` (what the exact model prints) and `print_spec` (the decidable predicate
    `PrintedOK` evaluated on the implementation's parsed output) — C09. -/
 import QExPy.Driver.Json
-import QExPy.Model.Printing
+import QExPy.Model.PrintText
 namespace QExPy.Drv
 open Lean QExPy.Printing
 
@@ -60,10 +60,18 @@ def cmdPrintSpec (j : Json) : R Json := do
   let v ← getRat (← field j "v")
   let e ← getRat (← field j "e")
   let cfg ← getPCfg j
-  let p ← getPrinted (← field j "printed")
+  -- the implementation's raw text is read back by the Lean parser (`text`); a pre-parsed
+  -- structure (`printed`) is accepted for the spec self-test
+  let p ← match j.getObjVal? "text" with
+    | .ok t => do
+      match parsePrinted (← getStr t) with
+      | some p => pure p
+      | none => throw "unparsed"
+    | .error _ => getPrinted (← field j "printed")
   let x := pivot cfg.mode v e
   let p0 : Int := ilog10 x - cfg.n + 1
   pure (obj [("ok", Json.bool (decide (PrintedOK v e cfg p))),
+             ("parsed", putPrinted p),
              ("pivotZero", Json.bool (decide (x = 0))),
              ("p0", Json.num (JsonNumber.fromInt p0)),
              ("carryAllowed", Json.bool (decide (p10 cfg.n - tol ≤ qabs x / p10 p0))),
